@@ -99,6 +99,8 @@ class C02System(BuilderSystem):
             ["move", [], {"x": 1}], ["rapid", [], {"x": 0, "S": 1000}],
             ["set_distance_mode", ["relative"]], ["set_bed_temperature", [50]],
             ["set_feed_rate", [100]], ["set_tool_power", [50]], ["sleep", [1]], ["query", ["position"]],
+            # zero is a legal power and feed: the tool keeps running at S0 (laser travel moves)
+            ["set_tool_power", [0]], ["move", [], {"y": 1, "S": 0}], ["set_feed_rate", [0]],
             # argument-invalid variants
             ["tool_on", ["off", 100]], ["tool_on", ["bogus", 1]], ["tool_on", ["clockwise", -1]],
             ["power_on", ["off", 10]], ["power_on", ["constant", -1]],
